@@ -160,6 +160,11 @@ func judge(p *spectrace.Pair, traces []spectrace.Trace, pair, dir string) string
 	if v.OK {
 		return ""
 	}
+	if v.Budget {
+		vstat.ClassN("budget.traces-not-judged", int64(len(traces)))
+		vstat.ClassN(pair+".steps-judged-by-TLC", -int64(steps))
+		return ""
+	}
 	if v.Infra {
 		return fmt.Sprintf("INCONCLUSIVE: TLC could not judge the %s traces:\n%s", pair, tail(v.Output, 3000))
 	}
@@ -191,6 +196,9 @@ func tail(s string, n int) string {
 func TestC02LockSvc(t *testing.T) {
 	g := newGroups()
 	rapid.Check(t, func(t *rapid.T) {
+		if vstat.OverBudget() {
+			return
+		}
 		vstat.Case()
 		n := rapid.IntRange(1, 4).Draw(t, "clients")
 		d, c := draws(t)
@@ -208,6 +216,9 @@ func TestC02DQueue(t *testing.T) {
 	g := newGroups()
 	sysbind.SpecFaithfulStream = true
 	rapid.Check(t, func(t *rapid.T) {
+		if vstat.OverBudget() {
+			return
+		}
 		vstat.Case()
 		n, buf := rapid.IntRange(1, 3).Draw(t, "consumers"), rapid.SampledFrom([]int{1, 2, 4, 5}).Draw(t, "buffer")
 		d, c := draws(t)
@@ -225,6 +236,9 @@ func TestC02DQueue(t *testing.T) {
 func TestC02PBKVS(t *testing.T) {
 	g := newGroups()
 	rapid.Check(t, func(t *rapid.T) {
+		if vstat.OverBudget() {
+			return
+		}
 		vstat.Case()
 		nr, nc := rapid.SampledFrom([]int{1, 2, 3, 3}).Draw(t, "replicas"), rapid.IntRange(1, 2).Draw(t, "clients")
 		crashPct := rapid.SampledFrom([]int{0, 3, 10}).Draw(t, "crashpct")
